@@ -5,17 +5,16 @@ import ast
 from .common import REAL
 
 EXPLANATION = (
-    "Rules on the StreamResult decorators of testtools.testresult.real: R-NO-PARAM-MUTATION "
-    "(local alias analysis: no in-place mutation of an object that may alias a value received "
-    "from the caller in status/startTestRun/stopTestRun of any StreamResult class; **kwargs itself "
-    "is fresh, values taken out of it are not), R-STRICT (lazy map/filter/generator whose elements "
-    "do the forwarding must be materialised; _strict_map materialises), R-FORWARD-ALL-TARGETS "
-    "(CopyStreamResult applies the same-named method to every element of self.targets once; "
-    "subclasses reach it through super() exactly once on every path -- typestate counter on the "
-    "CFG), R-FIELD-PASSTHROUGH (schema = the ten parameters of StreamResult.status: each reaches "
-    "the forwarding call unchanged except the field the decorator owns), R-OWNED-FIELD-GUARD "
-    "(timestamp filled only when None with an aware-UTC now; fail-fast callback only for "
-    "{fail, uxsuccess}; tagger computes (incoming | add) - discard, None when empty)."
+    'CopyStreamResult, StreamTagger, TimestampingStreamResult, StreamFailFast and StreamToQueue are constructed and fed '
+    'events (ttsa.rules.streamobjects); targets, queue and callback are logging objects. R-FORWARD-ALL-TARGETS: '
+    'startTestRun / status / stopTestRun reach every target exactly once, in list order; StreamToQueue puts one event dict '
+    'per call. R-FIELD-PASSTHROUGH: every one of the ten status fields reaches every target unchanged except the one the '
+    'decorator owns. R-STRICT: the forwarding happens during the call (an error raised by a target surfaces from status() '
+    "after the earlier targets were served). R-OWNED-FIELD-GUARD: StreamTagger's targets see (incoming | add) - discard, "
+    'None when that is empty; TimestampingStreamResult fills only a missing timestamp, with the current UTC time; '
+    "StreamFailFast fires for 'fail' and 'uxsuccess' only, once; StreamToQueue prefixes only the route code. "
+    'R-NO-PARAM-MUTATION: the tag set the caller passed (kept on the abstract heap, so that aliases are seen) is the same '
+    'object with the same members afterwards; plus the local alias rule over every StreamResult subclass of real.py.'
 )
 
 from . import streamobjects as so   # noqa: E402
